@@ -307,6 +307,10 @@ func (vc *VC) enterLoop(fr *Frame, h *ssa.BasicBlock, edges []edgeState, ord int
 		}
 		entryPhi[phi] = vc.def(vc.sortOf(phi.Type()), iteChain(pcs, vals), "phi0_"+phi.Comment)
 	}
+	if vc.loopEntryVals == nil {
+		vc.loopEntryVals = map[loopKey]map[*ssa.Phi]string{}
+	}
+	vc.loopEntryVals[loopKey{fr.fn, ord}] = entryPhi
 	lc := vc.loopContract(fr, ord)
 	// engine-supplied invariant of every range-over-slice loop: the hidden index starts at -1 and only grows
 	for _, instr := range h.Instrs {
@@ -368,6 +372,31 @@ func (vc *VC) enterLoop(fr *Frame, h *ssa.BasicBlock, edges []edgeState, ord int
 			mods[lk] = true
 		}
 	}
+	// calls in the loop body: the ghost recorders of exactly those call events advance
+	// (all of them when the body may call something unknown)
+	for k := range vc.svSort {
+		isEv := strings.HasPrefix(k, "G_calls_") || strings.HasPrefix(k, "G_arg_") || strings.HasPrefix(k, "G_sum_")
+		if !isEv {
+			continue
+		}
+		if mods["*"] {
+			mods[k] = true
+			continue
+		}
+		for m := range mods {
+			if !strings.HasPrefix(m, "EV|") {
+				continue
+			}
+			id := sanitizeID(m[3:])
+			if k == "G_calls_"+id || strings.HasPrefix(k, "G_arg_"+id+"_") || strings.HasPrefix(k, "G_sum_"+id+"_") {
+				// the prefix test must not confuse "f" with "f_g": the remainder is a parameter index
+				rest := strings.TrimPrefix(strings.TrimPrefix(k, "G_arg_"+id+"_"), "G_sum_"+id+"_")
+				if k == "G_calls_"+id || isDigits(rest) {
+					mods[k] = true
+				}
+			}
+		}
+	}
 	mk := make([]string, 0, len(mods))
 	for k := range mods {
 		mk = append(mk, k)
@@ -375,6 +404,27 @@ func (vc *VC) enterLoop(fr *Frame, h *ssa.BasicBlock, edges []edgeState, ord int
 	sort.Strings(mk)
 	for _, k := range mk {
 		if _, ok := vc.svSort[k]; !ok {
+			continue
+		}
+		if strings.HasPrefix(k, "G_calls_") {
+			old := vc.get(cur, k)
+			nv := vc.fresh("Int", "havoc_calls")
+			vc.fact(hpc, fmt.Sprintf("(>= %s %s)", nv, old))
+			cur.vars[k] = nv
+			continue
+		}
+		if strings.HasPrefix(k, "G_arg_") {
+			// entries recorded before the loop are kept
+			name := k[len("G_arg_"):]
+			if i := strings.LastIndex(name, "_"); i >= 0 {
+				name = name[:i]
+			}
+			oldA := vc.get(cur, k)
+			na := vc.fresh(vc.svSort[k], "havoc_ev")
+			if cnt, ok := vc.svSort["G_calls_"+name]; ok && cnt == "Int" {
+				vc.fact(hpc, fmt.Sprintf("(forall ((k Int)) (! (=> (< k %s) (= (select %s k) (select %s k))) :pattern ((select %s k))))", vc.get(pre, "G_calls_"+name), na, oldA, na))
+			}
+			cur.vars[k] = na
 			continue
 		}
 		if k == "G_alloc" {
@@ -489,6 +539,26 @@ func (vc *VC) backEdge(fr *Frame, from, h *ssa.BasicBlock, st *State, ord int) {
 	newv := map[*ssa.Phi]string{}
 	for phi := range saved {
 		newv[phi] = vc.value(fr, st, phi.Edges[idx])
+	}
+	// vacuity guard: the body can be executed from a head state that is not the entry state (some loop
+	// variable differs from its entry value), i.e. the invariants do not silently pin the loop to its
+	// first iteration
+	if ev, ok := vc.loopEntryVals[loopKey{fr.fn, ord}]; ok && vc.fc != nil {
+		var neqs []string
+		for phi, head := range saved {
+			if e, ok := ev[phi]; ok && e != head && vc.sortOf(phi.Type()) != "Slice" && vc.sortOf(phi.Type()) != "Iface" {
+				neqs = append(neqs, fmt.Sprintf("(not (= %s %s))", head, e))
+			}
+		}
+		if len(neqs) > 0 {
+			sort.Strings(neqs)
+			// one pair of probes per back edge; a loop is reported as pinned only when some back edge is
+			// reachable and none is reachable from a later iteration (grouped in main.go)
+			vc.cover(st, fmt.Sprintf("%s.loop%d.backedge.from%d", fnTag(fr), ord, from.Index), "this back edge of the loop is reachable under the precondition", firstPos(from))
+			c2 := st.clone()
+			c2.pc = vc.def("Bool", fmt.Sprintf("(and %s (or %s))", st.pc, strings.Join(neqs, " ")), "pc_iter2")
+			vc.cover(c2, fmt.Sprintf("%s.loop%d.later-iteration.from%d", fnTag(fr), ord, from.Index), "the loop body can run from a head state other than the entry state (the invariants do not pin the loop to its first iteration)", firstPos(from))
+		}
 	}
 	for phi, v := range newv {
 		fr.env[phi] = v
@@ -970,4 +1040,16 @@ func (vc *VC) loopFrameFact(cur *State, k string) {
 	}
 	vc.fact(cur.pc, fmt.Sprintf("(forall ((a Int)) (! (=> (and %s) (= (select %s a) (select %s a))) :pattern ((select %s a))))",
 		strings.Join(conds, " "), cur.vars[k], vc.get(vc.entry, k), cur.vars[k]))
+}
+
+func isDigits(s string) bool {
+	if s == "" {
+		return false
+	}
+	for _, c := range s {
+		if c < '0' || c > '9' {
+			return false
+		}
+	}
+	return true
 }
